@@ -133,6 +133,15 @@ func (e *Env) serviceDesc() *grpc.ServiceDesc {
 
 var errPlain = errors.New("plain failure")
 
+// okStatusErr is a failure whose GRPCStatus() says OK (an application error type
+// with a sloppy status method): the handler did fail, the call must not succeed.
+type okStatusErr struct{}
+
+func (okStatusErr) Error() string { return "failure carrying an OK status" }
+func (okStatusErr) GRPCStatus() *status.Status {
+	return status.New(codes.OK, "failure carrying an OK status")
+}
+
 func retErr(op string, ctx context.Context) error {
 	switch {
 	case op == "ret:ok" || op == "ret:nil":
@@ -150,6 +159,8 @@ func retErr(op string, ctx context.Context) error {
 		return io.EOF
 	case op == "ret:plain":
 		return errPlain
+	case op == "ret:okerr":
+		return okStatusErr{}
 	}
 	panic("bad ret op " + op)
 }
